@@ -1,15 +1,45 @@
-"""Markdown table of the seeded changes and what the checks made of them (from seeded/*/meta.json)."""
-import glob, json, os
+"""Markdown table of the seeded changes and what the checks made of them (from seeded/*/meta.json).
+usage: seedtable.py [--into-design]   (replaces the text between the SEEDTABLE markers of DESIGN.md)"""
+import glob, json, os, re, sys
 V = os.path.dirname(os.path.dirname(os.path.abspath(__file__)))
-rows = []
-for f in sorted(glob.glob(os.path.join(V, 'seeded', '*', 'meta.json'))):
+
+
+def key(f):
+    name = os.path.basename(os.path.dirname(f))
+    a, b = name.split('-')
+    return a, int(b)
+
+
+rows, n_tests = [], 0
+for f in sorted(glob.glob(os.path.join(V, 'seeded', '*', 'meta.json')), key=key):
     m = json.load(open(f))
     name = os.path.basename(os.path.dirname(f))
     v = m.get('verification', {})
+    tv = m.get('tests_verification') or {}
     title = (m.get('title') or m.get('what_breaks') or '')[:110].replace('|', '/').replace('\n', ' ')
     needs = (m.get('needs_to_manifest') or '')[:150].replace('|', '/').replace('\n', ' ')
     viol = (v.get('violation_lines') or [''])[0]
     kind = 'replay' if (viol and 'no-failing-input-found' not in viol) else ('no-failing-input-found' if viol else '-')
-    rows.append(f"| {name} | {title} | {needs} | {v.get('verdict', 'not run')} ({kind}) |")
-print('| seed | change | needs to manifest | result of the check |\n|---|---|---|---|')
-print('\n'.join(rows))
+    if tv.get('exit') == 0:
+        tests = f"pass ({len(tv.get('modules', []))} modules, re-run here)"
+        n_tests += 1
+    elif tv:
+        tests = f"exit {tv.get('exit')}"
+    else:
+        tests = 'as reported by the seeding agent'
+    rows.append(f"| {name} | {title} | {needs} | {tests} | {v.get('verdict', 'not run')} ({kind}) |")
+head = (f'{len(rows)} seeded changes; named test modules re-run on the patched tree by `seedtest.py --tests` for {n_tests} of them '
+        '(the others: as run and reported by the seeding agent in `meta.json`).\n\n'
+        '| seed | change | needs to manifest | existing tests on the patched tree | result of the check |\n|---|---|---|---|---|')
+table = head + '\n' + '\n'.join(rows)
+if '--into-design' in sys.argv:
+    p = os.path.join(V, 'DESIGN.md')
+    s = open(p).read()
+    b, e = '<!-- SEEDTABLE BEGIN -->', '<!-- SEEDTABLE END -->'
+    if b in s:
+        s = s[:s.index(b) + len(b)] + '\n' + table + '\n' + s[s.index(e):]
+    else:
+        s = s.rstrip('\n') + '\n\n' + b + '\n' + table + '\n' + e + '\n'
+    open(p, 'w').write(s)
+else:
+    print(table)
